@@ -56,6 +56,7 @@ declare_tag_set!(pub html_default_scope =
 pub(crate) fn default_scope(name: ExpandedName) -> bool {
     html_default_scope(name)
         || mathml_text_integration_point(name)
+        || matches!(name, expanded_name!(mathml "annotation-xml"))
         || svg_html_integration_point(name)
 }
 
